@@ -1544,15 +1544,30 @@ func populateRawProofs(context, didID, baseURI string, proofs []Proof) []interfa
 			creator = makeRelativeDIDURL(p.Creator, baseURI, didID)
 		}
 
-		rawProofs = append(rawProofs, map[string]interface{}{
-			jsonldType:         p.Type,
-			jsonldCreated:      p.Created,
-			jsonldCreator:      creator,
-			k:                  sigproof.EncodeProofValue(p.ProofValue, p.Type),
-			jsonldDomain:       p.Domain,
-			jsonldNonce:        base64.RawURLEncoding.EncodeToString(p.Nonce),
-			jsonldProofPurpose: p.ProofPurpose,
-		})
+		rawProof := map[string]interface{}{
+			jsonldType:    p.Type,
+			jsonldCreated: p.Created,
+			k:             sigproof.EncodeProofValue(p.ProofValue, p.Type),
+		}
+
+		// optional members are written only when they are set
+		if creator != "" {
+			rawProof[jsonldCreator] = creator
+		}
+
+		if p.Domain != "" {
+			rawProof[jsonldDomain] = p.Domain
+		}
+
+		if len(p.Nonce) > 0 {
+			rawProof[jsonldNonce] = base64.RawURLEncoding.EncodeToString(p.Nonce)
+		}
+
+		if p.ProofPurpose != "" {
+			rawProof[jsonldProofPurpose] = p.ProofPurpose
+		}
+
+		rawProofs = append(rawProofs, rawProof)
 	}
 
 	return rawProofs
